@@ -945,6 +945,74 @@ def run(chk, replay=None):
             ok = False
         ho('constant-fval-cval', ok, {'constant': fstr(c), 'fval': repr(E.fval), 'cval': repr(E.cval)})
 
+    def check_response_delay(i):
+        """last clause of C17 (harness only): response() of a transfer function with a pure delay of an integer number of
+        samples, driven by a NON-constant sampled input.  Even i: exp(-m s) b/s, ramp input, dt = 1, bilinear: the trapezoidal
+        rule is exact for a linear input, every value is a dyadic rational and is compared exactly.  Odd i:
+        exp(-T s) b/(s+a), x = sin(w t), dt = 1/128: compared with the closed form of the delayed convolution, tolerance
+        2% of the response amplitude + 1e-3 for the bilinear family (discretisation error O(dt^2) ~ 1e-4), 15% for the
+        Euler variants (O(dt)); a mis-aligned input is off by 2 sin(w T / 2) >= 49% of the amplitude."""
+        s_ = L.vars['s'].sympy
+        if i % 2 == 0:
+            m = rng.choice([1, 2, 3])
+            b = Fraction(rng.choice([1, 2, 3, 1]), rng.choice([1, 2, 4]))
+            c1 = Fraction(rng.choice([1, 2, 3]), rng.choice([1, 2]))
+            method = rng.choice(['bilinear', 'tustin', 'trapezoidal', 'bilinear'])
+            H = L.lcapy.expr(sym.exp(-m * s_) * L.R(b) / s_)
+            N = 12
+            tv = np.arange(N) * 1.0
+            xv = float(c1) * tv
+            detail = {'H': str(H.sympy), 'input': '%s*t sampled at dt = 1, N = %d' % (fstr(c1), N), 'method': method}
+            chk.case((str(H.sympy), fstr(c1), method, 'response-delay-exact'), nontrivial=True)
+            try:
+                with time_limit(60):
+                    y = np.real(H.response(xv, tv, method=method))
+                bad = None
+                for k in range(N):
+                    exact = b * c1 * Fraction((k - m) ** 2, 2) if k >= m else Fraction(0)
+                    if Fraction(float(y[k])) != exact:
+                        bad = 'y[%d] = %s, exact y(%d) = b c1 (t - m)^2 / 2 = %s' % (k, fstr(Fraction(float(y[k])).limit_denominator(10 ** 6)), k, fstr(exact))
+                        break
+            except Timeout:
+                chk.count('degenerate', 'sympy-timeout')
+                return
+            except Exception as ex:   # noqa
+                bad = '%s: %s' % (type(ex).__name__, str(ex)[:100])
+            ho('response-delay-exact', bad is None, dict(detail, first_difference=bad))
+            return
+        a = Fraction(rng.randint(1, 3))
+        b = Fraction(rng.randint(1, 4), rng.choice([1, 2]))
+        w = rng.choice([1, 2, 3])
+        T = rng.choice([Fraction(1, 2), Fraction(1), Fraction(1, 4) * 3])
+        method = rng.choice(['bilinear', 'bilinear', 'gbf', 'backward-euler', 'impulse-invariance'])
+        dtq = Fraction(1, 128)
+        N = 512
+        H = L.lcapy.expr(sym.exp(-L.R(T) * s_) * L.R(b) / (s_ + L.R(a)))
+        tq = [k * dtq for k in range(N)]
+        tv = np.array([float(x) for x in tq])
+        xv = np.sin(w * tv)
+        amp = float(b) / math.sqrt(float(a) ** 2 + w ** 2)
+        tol = (0.15 * amp) if method in ('backward-euler', 'impulse-invariance') else (0.02 * amp + 1e-3)
+        detail = {'H': str(H.sympy), 'input': 'sin(%d t) sampled at dt = 1/128, N = %d' % (w, N), 'method': method,
+                  'tolerance': tol, 'closed_form': 'b (w exp(-a tau) + a sin(w tau) - w cos(w tau)) / (a^2 + w^2), tau = t - T'}
+        chk.case((str(H.sympy), w, method, 'response-delay-closed-form'), nontrivial=True)
+        bad = None
+        try:
+            with time_limit(90):
+                y = np.real(H.response(xv, tv, method=method))
+            for k in range(0, N, 16):
+                tau = float(tq[k] - T)
+                exact = 0.0 if tau <= 0 else float(b) * (w * math.exp(-float(a) * tau) + float(a) * math.sin(w * tau) - w * math.cos(w * tau)) / (float(a) ** 2 + w ** 2)
+                if not abs(float(y[k]) - exact) <= tol:
+                    bad = 'y[%d] = %.6f, closed form y(%s) = %.6f' % (k, float(y[k]), fstr(tq[k]), exact)
+                    break
+        except Timeout:
+            chk.count('degenerate', 'sympy-timeout')
+            return
+        except Exception as ex:   # noqa
+            bad = '%s: %s' % (type(ex).__name__, str(ex)[:100])
+        ho('response-delay-closed-form', bad is None, dict(detail, first_difference=bad))
+
     def check_response_convergence():
         """last clause of C17 (harness only): H.response(x, t) of a sampled unit step must approach the symbolic
         step response as the step shrinks"""
@@ -1001,7 +1069,10 @@ def run(chk, replay=None):
             check_table(inp['fn'], inp['var'], Fraction(inp['x']), origin=origin)
             return True
         if inp.get('stream') == 'expr':
-            check_expr(parse_tokens(inp['tokens'].split()), inp['var'], [Fraction(inp['x'])], with_arrays=False)
+            if 'xs' in inp:
+                check_expr(parse_tokens(inp['tokens'].split()), inp['var'], [Fraction(x) for x in inp['xs']], with_arrays=True)
+            else:
+                check_expr(parse_tokens(inp['tokens'].split()), inp['var'], [Fraction(inp['x'])], with_arrays=False)
             return True
         return False
 
@@ -1078,6 +1149,8 @@ def run(chk, replay=None):
         check_constant()
     for i in range(4 if quick else 24):
         check_response_convergence()
+    for i in range(6 if quick else 40):
+        check_response_delay(i)
     chk.coverage['harness_only'] = harness_only
 
     # ---- classification of broken obligations / correspondence with no counterexample
